@@ -10,6 +10,7 @@ import Proofs.Lemmas.BlakeRefine
 import Proofs.Lemmas.Blake2Refine
 import Proofs.Lemmas.BlakeTrace
 import Proofs.Lemmas.Blake2End
+import Proofs.Lemmas.BlakeEnd
 namespace Proofs.C11
 open Model Model.Gen Proofs.Lemmas Proofs.Lemmas.BlakeWords
 
@@ -83,6 +84,11 @@ theorem compress2_refines {c : Blake.Cfg} {V : Spec.Blake2.Variant} (hm : Blake2
     Blake2.compress c (H.map ofBV) (W.map ofBV) t fin = (Spec.Blake2.F V H W t fin).map ofBV :=
   (Blake2Refine.compress_refines hm H W hH hW t fin).1
 
+/-- non-vacuity of the hypotheses of the refinement theorems: a configuration/variant pair with matching data exists for
+    every member of both families (the theorems above), and word lists of the required lengths exist -/
+example : ∃ (H salt W : List (BitVec Spec.Blake.blake256.w)), H.length = 8 ∧ salt.length = 4 ∧ W.length = 16 ∧ W ≠ List.replicate 16 0 :=
+  ⟨List.replicate 8 1, List.replicate 4 2, List.replicate 16 3, by simp, by simp, by simp, by decide⟩
+
 /-! ## counter and finalization-flag rules -/
 
 /-- BLAKE: the counter fed with the i-th block is the number of message bits hashed up to and including that block,
@@ -102,6 +108,11 @@ theorem blake_counter (c : Blake.Cfg) (hc : c = Blake.blake224 ∨ c = Blake.bla
   · exact key 256 (by decide)
   · exact key 384 (by decide)
   · exact key 512 (by decide)
+
+/-- non-vacuity for `blake_counter`: a fresh state, a preset state near 2^32, a bit length inside the message -/
+example : (Blake.initstate Blake.blake256 5).pad.padflag = false ∧
+    ({ Blake.initstate Blake.blake256 5 with pad := { bitcnt := 2 ^ 32 - 512 } } : Blake.State).pad.padflag = false ∧
+    (some 13 : Option Nat).getD (8 * [1, 2, 3].length) ≤ 8 * [1, 2, 3].length := by decide
 
 /-- BLAKE2: the byte counter fed with the i-th block is `min(|M|,(i+1)·bb)` on top of the bytes fed before this call
     (0 for the single zero block of an empty message); there are max(1,⌈|M|/bb⌉) blocks -/
@@ -179,5 +190,49 @@ example : (⟨64, 1, 1, 0, 0, 0, 0, List.replicate 16 0, List.replicate 16 0⟩ 
 example : (⟨17, 2, 3, 1000, 5, 1, 9, List.replicate 8 255, List.replicate 8 7⟩ : Spec.Blake2.Params).valid Spec.Blake2.blake2s := by
   simp [Spec.Blake2.Params.valid, Spec.Blake2.blake2s, Spec.Blake2.Variant.maxOut]
 example : Blake2End.Pair Blake2.blake2b Spec.Blake2.blake2b := Or.inl ⟨rfl, rfl⟩
+
+/-! ## BLAKE: end to end as far as proved, digest length -/
+
+/-
+  FULL STATEMENT (property text):
+    theorem blake_refines (h : BlakeEnd.Pair c V) (M) (salt) (bitlen) (hL : L ≤ 8|M|) (hM : bytes) :
+      Blake.call c M salt bitlen = .ok (Spec.Blake.hash V M L salt)          -- L = bitlen.getD (8|M|)
+  PROVED (`blake_refines_partial`): the call of the model equals the submission's output transformation of the
+  submission's compression function folded from the submission's IV, with the submission's salt words, over the blocks
+  `Blakepadding.iterblocks` yields, each block read as sixteen big-endian words and compressed with the counter observed
+  at its yield; together with `blake_counter` (these counters are the submission's: bits so far, 0 for a padding-only
+  block, ⌈(L+2+2w)/B⌉ blocks) and `blake_data_eq_spec`.
+  MISSING: that the bytes of the yielded blocks are the bit string  M[0:L] ‖ 1 ‖ 0…0 ‖ marker ‖ ⟨L⟩_2w  cut into blocks
+  (property C09 for the `blake` scheme: `Bits(m,size=L)//Bits(1,1)//Bits(0,N)//Bits(v,1)` rendered by `bytes()`), and the
+  bit-level reading of a block (`Spec.Blake.blockWords` on bits = `BlakeEnd.beWords` on bytes).  The executable echo of
+  the full statement is compared on every line of the correspondence stream (model column = spec column).
+-/
+theorem blake_refines_partial {c : Blake.Cfg} {V : Spec.Blake.Variant} (h : BlakeEnd.Pair c V)
+    (M : List Nat) (salt : Nat) (bitlen : Option Nat) (hL : bitlen.getD (8 * M.length) ≤ 8 * M.length) :
+    Blake.call c M salt bitlen = .ok (Spec.Blake.output V
+      (((Padder.blakeP c.size).iterblocks {} M bitlen true).yields.foldl
+        (fun h (y : List Nat × PadState) =>
+          Spec.Blake.compress V h (BlakeEnd.beWords V y.1) (Spec.Blake.saltWords V salt) y.2.bitcnt) V.iv)) :=
+  BlakeEnd.blake_call_eq h M salt bitlen hL
+
+/-- BLAKE: every call with a bit length within the message succeeds and returns exactly size/8 bytes -/
+theorem blake_digest_length {c : Blake.Cfg} {V : Spec.Blake.Variant} (h : BlakeEnd.Pair c V)
+    (M : List Nat) (salt : Nat) (bitlen : Option Nat) (hL : bitlen.getD (8 * M.length) ≤ 8 * M.length) :
+    ∃ d, Blake.call c M salt bitlen = .ok d ∧ d.length = c.size / 8 :=
+  ⟨_, BlakeEnd.blake_call_eq h M salt bitlen hL,
+    BlakeEnd.blake_call_length h M salt bitlen hL _ (BlakeEnd.blake_call_eq h M salt bitlen hL)⟩
+
+/-- a bit length beyond the message is refused; so is a size outside {224,256,384,512} -/
+theorem blake_refusals (c : Blake.Cfg) (M : List Nat) (salt L n : Nat) (hL : 8 * M.length < L)
+    (hn : n ≠ 224 ∧ n ≠ 256 ∧ n ≠ 384 ∧ n ≠ 512) :
+    (∃ e, Blake.call c M salt (some L) = .error e) ∧ (∃ e, Blake.mk? n = .error e) := by
+  constructor
+  · refine ⟨"PaddingError:input bitlen mismatch", ?_⟩
+    simp [Blake.call, Blake.update, Blake.initstate, Padder.iterblocks, hL]
+  · refine ⟨"AssertionError", ?_⟩
+    simp [Blake.mk?, hn.1, hn.2.1, hn.2.2.1, hn.2.2.2]
+
+example : BlakeEnd.Pair Blake.blake512 Spec.Blake.blake512 := Or.inr (Or.inr (Or.inr ⟨rfl, rfl⟩))
+example : (some 13 : Option Nat).getD (8 * [1, 2, 3].length) ≤ 8 * [1, 2, 3].length := by decide
 
 end Proofs.C11
